@@ -196,6 +196,9 @@ func runStock(rc *RunCtx) {
 	src, _ := url.Parse("https://example.com/stock")
 	ce := &cloudevents.FormatterFilter{Source: src, SignEventTypes: []string{"t"}}
 	ce.Signer = func(ctx context.Context, b []byte) (string, error) { return "sig0", nil }
+	if tp.Choose(2, "ce-schema") == 0 {
+		ce.Schema, _ = url.Parse("https://example.com/stock-schema.json") // an optional part of the configuration
+	}
 	if tp.Choose(3, "self-rotating-signer") == 0 {
 		// a usage-limited key: every third signature the signer installs its successor itself
 		var uses stockTick
